@@ -25,18 +25,33 @@ from vlib import graphs
 from vlib.cases import Case, Sub, evaluate as _evaluate
 from vlib.core import enc_csr, enc_list, enc_rat, ToolFailure, VERIF
 
-RULE = ('all undirected simple graphs n<=5 (thorough: n<=6) x {count_triangles seq/parallel, clustering coefficient, '
-        'core decomposition, count_cliques for every k in 2..n+1 and the refused k<2}; structured and random graphs '
-        '6<=n<=40 (onion/core-structured, preferential attachment, dense blocks, multipartite, relabelled copies, '
-        'unsorted indices, integer weights, fractional float32 weights, bool/int dtypes); non-square matrices (refused); 300 (thorough 3000) dense graphs n=6..8 for the deeper levels of the clique recursion; thread sweep OMP_NUM_THREADS in {1,2,3,5,8,16} in sub-processes. A case is non-trivial when the '
-        'graph has at least one edge (triangles/cliques: at least one path of length two); distinct = distinct '
-        '(function, graph, arguments)')
-ASSUMPTIONS = ['scipy csr construction / + / .T / astype / tocoo / tocsr are the substrate (the DAG handed to the kernels '
-               'is compared with the model\'s on every graph)',
-               'np.argsort returns a permutation (the clique count is independent of it: cliques_order_free)',
-               'C `long`/`int` counters do not overflow (graphs of the harness are far below 2^31 edges)',
+RULE = ('all undirected simple graphs n<=4 with every function, every clique size k in 2..n+1 and the DAG comparison; '
+        'n=5: all 1024 labelled graphs with triangles / clustering / core and k in {3,4}, a random quarter of them (quick; '
+        'all in thorough) with every k in 2..6 and the DAG comparison; n=6 (thorough): all graphs, k in {2,3,4} and one of '
+        '{5,6,7} (sampled); refused k<2 and non-square matrices; structured and random graphs 6<=n<=40 (onion, '
+        'preferential attachment, dense blocks, multipartite, G(n,p), relabelled copies) with k in {2,3,4,5} plus sampled '
+        'larger k; storage variants of the same graphs (unsorted rows, integer / fractional float32 weights, bool / int64 '
+        'values, stored zeros, duplicate entries); dense graphs n=6..8 (k=3,4,5); near-complete and complete multipartite '
+        'graphs n=8..11 (thorough 14) with every k in 2..n+1; a degenerate stream outside "undirected simple" (directed, '
+        'self-loops, negative and cancelling weights, cancelling duplicates, n<=5) that ties the model to the code; hubs '
+        '(a node of degree >= 46341, where degree^2 passes 2^31); thread sweep OMP_NUM_THREADS in {1,2,3,5,8,16} in '
+        'sub-processes. A case is non-trivial when the graph has at least one edge (triangles/cliques: at least one path of '
+        'length two); distinct = distinct (function, graph, arguments)')
+ASSUMPTIONS = ['scipy csr construction / + / .T / astype / tocoo / tocsr / sum_duplicates / eliminate_zeros are the '
+               'substrate (the DAG handed to the kernels is compared with the model\'s on every graph)',
+               'np.argsort returns a permutation (checked by a contract line; the clique count of a symmetric matrix is '
+               'independent of it: cliques_order_free)',
+               'integer widths, not modelled: index arrays are int32 (scipy\'s default below 2^31 stored entries; with '
+               'int64 index arrays get_core_decomposition and count_cliques raise "Buffer dtype mismatch", a '
+               'container-format matter left to C01), hence degrees < 2^31 and, since repair dc1060d3, the int64 products '
+               'degree*(degree-1) and their sum cannot overflow; the `long` triangle / clique counters stay below 2^63; '
+               'clique sizes k < 2^15 (the labels of ListingBox are int16: k >= 32768 raises OverflowError)',
                'OpenMP implements `+` reduction of a prange as: private copies initialised to 0, combined in an '
-               'unspecified order (the model quantifies over all assignments and all combination trees)']
+               'unspecified order (the model quantifies over all assignments and all combination trees); that the compiled '
+               'loop is parReduce of some valid schedule is the reading of the race-free descriptor, not a theorem',
+               'the hub graphs (47 000 nodes) are beyond the brute-force specification: their triangle count is the closed '
+               'form (one per extra edge of the star) and the coefficient is evaluated by the Lean side from that count '
+               'and the exact degree sequence (clusteringFromDegrees = clusteringSpec: clusteringSpec_from_degrees)']
 os.environ.setdefault('OMP_WAIT_POLICY', 'passive')   # libgomp is loaded later, with the overlay's kernels
 TOL = 1e-12          # clustering coefficient: one float64 division of two exactly known integers (DESIGN section 8
                      # allows 1e-9; two distinct values of 3t/T with T <= 3e4 can be that close)
